@@ -184,7 +184,7 @@ theorem linesLoop_nil (f : Nat) (st : List LineStat) (s : St) (he : s.pc.opened 
 
 /-- the whole-run goal: B's per-line loop ends the parse, in a store related to A's final store -/
 def Goal (src : Bytes) (fB : Nat) (sB : St) (sA' : St) : Prop :=
-  ∀ stB, ∃ x sB', linesLoop 0 fB stB sB = .ok ((true, x), sB') ∧ StoreRel src sA'.nodes sB'.nodes
+  ∀ stB, ∃ x sB', linesLoop 0 fB stB sB = .ok ((true, x), sB') ∧ FRel src sA'.nodes sB'.nodes
 
 /-- A's reader ended behind the last line -/
 def ReadToEnd (src : Bytes) (s : St) : Prop := ∀ ls, ¬ LineAt src s.r.line.toNat ls
@@ -200,23 +200,23 @@ theorem bind_inv {α β} {m : M α} {f : α → M β} {s : St} {b : β} {s' : St
 /-- the induction predicate of the line-by-line argument, for B's remaining line fuel `fB` -/
 def MainP (src : Bytes) (al : BP → Bool) (fB : Nat) : Prop :=
   ∀ (k ls : Nat) (sA sB : St), LS src al k ls sA sB → Pos src k ls → nlCount src + 2 ≤ fB + k →
-    ∀ sA', ReadToEnd src sA' →
+    ∀ sA',
       (sA.pc.opened = [] → ∀ sf lines fo stA, (skipFrom sf lines >>= blocksBody fo stA) sA = .ok ((), sA') →
         Goal src fB sB sA') ∧
       (sA.pc.opened ≠ [] → ∀ fi fo stA, resume fo fi stA sA = .ok ((), sA') → Goal src fB sB sA')
 
 /-- after a line: both runs call AdvanceLine and go on -/
 theorem afterLine {src al} (ns : NS src) {f : Nat} (ih : MainP src al f) {k ls p : Nat} {sA1 sB1 : St}
-    (hd : DR src al k ls p sA1 sB1) (hfuel : nlCount src + 2 ≤ f + (k + 1)) {sA' : St} (hre : ReadToEnd src sA')
+    (hd : DR src al k ls p sA1 sB1) (hfuel : nlCount src + 2 ≤ f + (k + 1)) {sA' : St}
     (fo fi : Nat) (stA : List LineStat)
     (hA : (advanceLine >>= fun _ => resume fo fi stA) sA1 = .ok ((), sA')) (stB : List LineStat) :
     ∃ x sB', (advanceLine >>= fun _ => linesLoop 0 f stB) sB1 = .ok ((true, x), sB') ∧
-      StoreRel src sA'.nodes sB'.nodes := by
+      FRel src sA'.nodes sB'.nodes := by
   obtain ⟨u, sA2, eA, hA2⟩ := bind_inv hA
   obtain ⟨_, sB2, eB, hls⟩ := advanceLine_LS ns hd u sA2 eA
   rw [bind_run eB]
   have hpos := pos_next hd.s.r.inl.line
-  obtain ⟨h1, h2⟩ := ih (k + 1) (lineEnd src ls) sA2 sB2 hls hpos hfuel sA' hre
+  obtain ⟨h1, h2⟩ := ih (k + 1) (lineEnd src ls) sA2 sB2 hls hpos hfuel sA'
   by_cases ho : sA2.pc.opened = []
   · -- nothing open in A: its per-line loop breaks and the outer loop goes on
     unfold resume at hA2
@@ -273,7 +273,7 @@ theorem eofNil {src al k ls} {sA sB : St} (h : LS src al k ls sA sB)
   have ec := closeBq_only (sB := { sB with r := rB }) hob hp1
   have hL : ((([bqBlock] : List Block).length : Nat) : Int) - 1 = 0 := rfl
   rw [hL] at eB
-  refine ⟨stB, { r := rB.advanceLine, nodes := sB.nodes, pc := { sB.pc with opened := [] } }, ?_, h.n⟩
+  refine ⟨stB, { r := rB.advanceLine, nodes := sB.nodes, pc := { sB.pc with opened := [] } }, ?_, h.n, h.a.u⟩
   show StateT.bind _ _ sB = _
   unfold StateT.bind
   rw [hL, eB, bind_run ec, bind_run (advanceLine_run _)]
@@ -283,9 +283,9 @@ theorem eofNil {src al k ls} {sA sB : St} (h : LS src al k ls sA sB)
     the reader, so it may be replaced by one that stands inside line 0, where the in-line relation applies -/
 theorem closeAll_anyReader {src al} (ps : PS src al) (fr : Frames al) (h0 : LineAt src 0 0) (tf : ∀ c ∈ src, c ≠ 9)
     {sA sB : St} (hsA : sA.r.source = src) (hsB : sB.r.source = quotePrefix src)
-    (hn : StoreRel src sA.nodes sB.nodes) (hc : CtxRel sA.pc sB.pc) (ha : AInv al sA.pc)
+    (hn : StoreRel src sA.nodes sB.nodes) (hc : CtxRel sA.pc sB.pc) (ha : AInv al sA.pc sA.nodes)
     (L : Int) (hL : L = (sA.pc.opened.length : Int) - 1) {sA2 : St} (hA : closeBlocks L 0 sA = .ok ((), sA2)) :
-    ∃ sB2, closeBlocks (L + 1) 0 sB = .ok ((), sB2) ∧ StoreRel src sA2.nodes sB2.nodes := by
+    ∃ sB2, closeBlocks (L + 1) 0 sB = .ok ((), sB2) ∧ FRel src sA2.nodes sB2.nodes := by
   -- readers inside line 0
   have hiA : RI src (Reader.new src) ⟨0, 0, 0⟩ := ri_init src
   have hiB0 : RI (quotePrefix src) (initSt (quotePrefix src)).r ⟨((0 : Nat) : Int), 0 + 2 * 0, 0⟩ := ri_init (quotePrefix src)
@@ -307,6 +307,7 @@ theorem closeAll_anyReader {src al} (ps : PS src al) (fr : Frames al) (h0 : Line
 structure Cls (src : Bytes) (al : BP → Bool) : Prop where
   ps : PS src al
   fr : Frames al
+  ot : OT src
   ns : NS src
   tr : TrigOK src al
   tf : ∀ c ∈ src, c ≠ 9
@@ -363,7 +364,7 @@ theorem rebind {α β} {m m' : M α} {f : α → M β} {s s1 : St} (e : m s = m'
 theorem lineBlankNil {src al} (cl : Cls src al) {f : Nat} (ih : MainP src al f) {k ls} {sA sB : St}
     (h : LS src al k ls sA sB) (hl : LineAt src k ls) (ho : sA.pc.opened = [])
     (hb : isBlank (sub src ls (lineEnd src ls)) = true) (hfuel : nlCount src + 2 ≤ f + 1 + k) {sA' : St}
-    (hre : ReadToEnd src sA') (sf : Nat) (lines : Int) (fo : Nat) (stA : List LineStat)
+    (sf : Nat) (lines : Int) (fo : Nat) (stA : List LineStat)
     (hA : (skipFrom (sf + 1) lines >>= blocksBody fo stA) sA = .ok ((), sA')) : Goal src (f + 1) sB sA' := by
   intro stB
   obtain ⟨r1, e1, hr1⟩ := skipFrom_blank hl h.ra hb sf lines
@@ -402,7 +403,7 @@ theorem lineBlankNil {src al} (cl : Cls src al) {f : Nat} (ih : MainP src al f) 
       { r := r''.advanceLine, nodes := sB.nodes, pc := { sB.pc with blockOffset := bo, blockIndent := bi } } :=
     ⟨h.tf, hr1, by simpa using hadv, h.n, ⟨h.c.opened, h.c.tmpPara, h.c.fence, h.c.skipList, h.c.emptyItemBlank⟩, h.a,
       fun hne => absurd ho hne⟩
-  obtain ⟨h1, _⟩ := ih (k + 1) (lineEnd src ls) _ _ hls (pos_next hl) (by omega) sA' hre
+  obtain ⟨h1, _⟩ := ih (k + 1) (lineEnd src ls) _ _ hls (pos_next hl) (by omega) sA'
   obtain ⟨x, sB', eL, hrel⟩ := h1 ho sf (lines + 1) fo stA hA (stB ++ [bqStat src k ls])
   refine ⟨x, sB', ?_, hrel⟩
   show StateT.bind _ _ sB = _
@@ -419,7 +420,7 @@ theorem lineBlankNil {src al} (cl : Cls src al) {f : Nat} (ih : MainP src al f) 
 theorem lineOpenNil {src al} (cl : Cls src al) {f : Nat} (ih : MainP src al f) {k ls} {sA sB : St}
     (h : LS src al k ls sA sB) (hl : LineAt src k ls) (ho : sA.pc.opened = [])
     (hb : isBlank (sub src ls (lineEnd src ls)) = false) (hfuel : nlCount src + 2 ≤ f + 1 + k) {sA' : St}
-    (hre : ReadToEnd src sA') (sf : Nat) (lines : Int) (fo : Nat) (stA : List LineStat)
+    (sf : Nat) (lines : Int) (fo : Nat) (stA : List LineStat)
     (hA : (skipFrom (sf + 1) lines >>= blocksBody fo stA) sA = .ok ((), sA')) : Goal src (f + 1) sB sA' := by
   intro stB
   obtain ⟨r1, e1, hr1⟩ := skipFrom_line hl h.ra hb sf lines
@@ -441,19 +442,18 @@ theorem lineOpenNil {src al} (cl : Cls src al) {f : Nat} (ih : MainP src al f) {
   simp only [beq_self_eq_true, if_true] at eH
   have hdrl : DRL src al k ls ls { sA with r := r1 } { sB with r := r' } :=
     ⟨⟨h.tf, InL.start hl, hr1, hR.b⟩, h.n, h.c, h.a⟩
-  obtain ⟨db, sB2, eOB, _, p', hDR⟩ := openBlocks_sim cl.ps cl.fr cl.ns cl.tr _
+  obtain ⟨db, sB2, eOB, _, ⟨p', hDR⟩, hopens⟩ := openBlocks_sim cl.ps cl.fr cl.ot cl.ns cl.tr _
     (isBlankLine ((k : Int) - 1) 0 (stB ++ [bqStat src k ls])) 0 hdrl d sA2 hd
+  have hdn : d = OpenResult.newBlocksOpened := by
+    refine hopens ho ?_
+    unfold NBV viewA
+    rw [if_pos (lt_lineEnd src hl.lt)]
+    exact hb
   by_cases hnew : (d != OpenResult.newBlocksOpened) = true
-  · -- A would stop here without having read the source to its end
-    rw [if_pos hnew] at hA2
-    cases hA2
-    exfalso
-    have hline : sA'.r.line = k := by
-      have := hDR.s.r.a.abs.line; simpa [clearLo] using this
-    apply hre ls
-    rw [hline]; simpa using hl
+  · -- a line that is not blank always opens a block
+    rw [hdn] at hnew; cases hnew
   · rw [if_neg hnew] at hA2
-    obtain ⟨x, sB', eL, hrel⟩ := afterLine cl.ns ih hDR (by omega) hre fo fo _ hA2 (stB ++ [bqStat src k ls])
+    obtain ⟨x, sB', eL, hrel⟩ := afterLine cl.ns ih hDR (by omega) fo fo _ hA2 (stB ++ [bqStat src k ls])
     refine ⟨x, sB', ?_, hrel⟩
     show StateT.bind _ _ sB = _
     unfold StateT.bind
@@ -466,7 +466,7 @@ theorem lineOpenNil {src al} (cl : Cls src al) {f : Nat} (ih : MainP src al f) {
 theorem lineOpenSome {src al} (cl : Cls src al) {f : Nat} (ih : MainP src al f) {k ls} {sA sB : St}
     (h : LS src al k ls sA sB) (hl : LineAt src k ls) (ho : sA.pc.opened ≠ [])
     (hfuel : nlCount src + 2 ≤ f + 1 + k) {sA' : St}
-    (hre : ReadToEnd src sA') (fi fo : Nat) (stA : List LineStat)
+    (fi fo : Nat) (stA : List LineStat)
     (hA : resume fo (fi + 1) stA sA = .ok ((), sA')) : Goal src (f + 1) sB sA' := by
   intro stB
   unfold resume at hA
@@ -489,7 +489,7 @@ theorem lineOpenSome {src al} (cl : Cls src al) {f : Nat} (ih : MainP src al f) 
   have hstrict := h.strict ho
   have hDR : DR src al k ls ls sA { sB with r := r' } :=
     ⟨⟨hR, h.n, ⟨hstrict.1, hstrict.2, h.c.opened, h.c.tmpPara, h.c.fence, h.c.skipList, h.c.emptyItemBlank⟩⟩, h.a⟩
-  obtain ⟨yb, sB2, eLB, hyb, hrel⟩ := lineLoop_sim cl.ps cl.fr cl.ns cl.tr sA.pc.opened ((sA.pc.opened.length : Int) - 1)
+  obtain ⟨yb, sB2, eLB, hyb, hrel⟩ := lineLoop_sim cl.ps cl.fr cl.ot cl.ns cl.tr sA.pc.opened ((sA.pc.opened.length : Int) - 1)
     sA.pc.opened (fun _ hb => hb) 0 (Int.le_refl _) stA (stB ++ [bqStat src k ls]) hDR rfl rfl y sA2 hy
   obtain ⟨oA, blA⟩ := y
   obtain ⟨oB, blB⟩ := yb
@@ -521,7 +521,7 @@ theorem lineOpenSome {src al} (cl : Cls src al) {f : Nat} (ih : MainP src al f) 
       unfold resume
       rw [bind_run hll]
       exact hA1
-    obtain ⟨x, sB', eL, hrel'⟩ := afterLine cl.ns ih hd2 (by omega) hre fo fi blA hA3 blB
+    obtain ⟨x, sB', eL, hrel'⟩ := afterLine cl.ns ih hd2 (by omega) fo fi blA hA3 blB
     refine ⟨x, sB', ?_, hrel'⟩
     unfold linesCont
     exact eL
@@ -546,7 +546,7 @@ theorem mainP_all {src al} (cl : Cls src al) : ∀ fB, MainP src al fB := by
     have := pos_bound hpos
     omega
   | succ f ih =>
-    intro k ls sA sB h hpos hfuel sA' hre
+    intro k ls sA sB h hpos hfuel sA'
     constructor
     · intro ho sf lines fo stA hA
       cases sf with
@@ -556,15 +556,15 @@ theorem mainP_all {src al} (cl : Cls src al) : ∀ fB, MainP src al fB := by
       | succ sf =>
         rcases hpos with hl | he
         · by_cases hb : isBlank (sub src ls (lineEnd src ls)) = true
-          · exact lineBlankNil cl ih h hl ho hb hfuel hre sf lines fo stA hA
-          · exact lineOpenNil cl ih h hl ho (by simpa using hb) hfuel hre sf lines fo stA hA
+          · exact lineBlankNil cl ih h hl ho hb hfuel sf lines fo stA hA
+          · exact lineOpenNil cl ih h hl ho (by simpa using hb) hfuel sf lines fo stA hA
         · exact eofNil h he ho f sf lines fo stA hA
     · intro ho fi fo stA hA
       cases fi with
       | zero => rw [resume_zero] at hA; cases hA
       | succ fi =>
         rcases hpos with hl | he
-        · exact lineOpenSome cl ih h hl ho hfuel hre fi fo stA hA
+        · exact lineOpenSome cl ih h hl ho hfuel fi fo stA hA
         · exact eofOpen cl h he ho f fi fo stA hA
 
 end GM.Blocks
